@@ -175,6 +175,25 @@ def run(tier, seed):
             if np.any(np.diff(v) > 1e-12 * v[:-1]) or np.any(v <= 0) or not np.all(np.isfinite(v)):
                 ck.violation({"fn": nm, "clause": "viscosity_monotone_in_temperature"}, "%s viscosity not non-increasing in T: %s at T=%s" % (nm, v.tolist(), Ts.tolist()),
                              {"E": E, "V": V, "P": P})
+        # the same laws on a cold ladder that walks through the overflow guards of their exponentials (exponent 560 .. 730, the
+        # guards sit at ln(DBL_MAX) ~ 709.8): the viscosity may saturate (even at inf), it must not come back down when it gets colder
+        R_gas = 8.31446261815324
+        xs = np.linspace(730.0, 560.0, 86)
+        eta_ref, T_ref = 10 ** rng.uniform(15, 24), rng.uniform(200, 1800)
+        T_cold_r = np.sort(1.0 / (xs * R_gas / (E + P * V) + 1.0 / T_ref))
+        T_cold_a = np.sort((E + P * V) / (R_gas * xs))
+        with np.errstate(all="ignore"):
+            cold = (("arrhenius", T_cold_a, np.asarray(VM.arrhenius(T_cold_a.copy(), P, 1.0e-9, False, 1.0, 1.0, 1.0, 1.0, E, V), dtype=float)),
+                    ("reference", T_cold_r, np.asarray(VM.reference(T_cold_r.copy(), P, eta_ref, T_ref, E, V), dtype=float)))
+        ck.case(("chain-T-cold", t), True)
+        for nm, Tc, v in cold:
+            with np.errstate(all="ignore"):
+                rising = np.diff(v) > 1e-12 * v[:-1]
+            if np.any(rising) or np.any(np.isnan(v)) or np.any(v <= 0):
+                i = int(np.argmax(rising)) if np.any(rising) else 0
+                ck.violation({"fn": nm, "clause": "viscosity_monotone_in_temperature", "where": "overflow_guard"},
+                             "%s viscosity rises with temperature next to its overflow guard: %r at T=%r -> %r at T=%r" % (nm, float(v[i]), float(Tc[i]), float(v[i + 1]), float(Tc[i + 1])),
+                             {"E": E, "V": V, "P": P, "eta_ref": eta_ref, "T_ref": T_ref, "T": Tc.tolist()})
         # partial-melt floors and Henning monotonicity on a dense chain
         phis = np.linspace(0, 1, 41)
         T = rng.uniform(1200, 2200)
